@@ -4,7 +4,9 @@
  *   vhthr counter T M K     T threads x M balanced get/put on K shared nodes
  *   vhthr seed T            T threads released by a barrier into their first lh_get_hash; the seed
  *                           candidate of each thread is distinct (OVERRIDE_GET_RANDOM_SEED)
- *   vhthr disjoint T M      T threads each churning a private tree */
+ *   vhthr disjoint T M      T threads each churning a private tree
+ *   vhthr lastrefs T R      R rounds: a node with exactly T references, one per thread, all released at the same
+ *                           instant (nobody else holds one): destroyed exactly once, exactly one put reports 1 */
 #define _GNU_SOURCE
 #include "vhrt.h"
 #include "json.h"
@@ -101,6 +103,69 @@ static int run_counter(void)
 	ev_end();
 	return 0;
 }
+/* ---- lastrefs: the LAST references of a node released concurrently */
+static json_object *round_node;
+static int round_go, round_done;
+static volatile long freed_reports, destroyed_total, stray_destroy;
+static void on_destroy_round(json_object *o, void *ud)
+{
+	(void)o;
+	(void)ud;
+	__sync_add_and_fetch(&destroyed_total, 1);
+}
+static int R;
+static void *lastrefs_thread(void *a)
+{
+	targ *t = a;
+	my_tid = t->tid;
+	for (int r = 1; r <= R; r++)
+	{
+		while (__atomic_load_n(&round_go, __ATOMIC_ACQUIRE) < r)
+			; /* spin: released together (acquire/release pairs: the harness itself must be race free) */
+		json_object *n = __atomic_load_n(&round_node, __ATOMIC_ACQUIRE);
+		if (json_object_put(n) == 1)
+			__sync_add_and_fetch(&freed_reports, 1);
+		__atomic_add_fetch(&round_done, 1, __ATOMIC_ACQ_REL);
+	}
+	return NULL;
+}
+static int run_lastrefs(void)
+{
+	pthread_t th[64];
+	targ ta[64];
+	for (int i = 0; i < T; i++)
+	{
+		ta[i].tid = i + 1;
+		pthread_create(&th[i], NULL, lastrefs_thread, &ta[i]);
+	}
+	long bad_rounds = 0;
+	for (int r = 1; r <= R; r++)
+	{
+		json_object *n = r & 1 ? json_object_new_object() : json_object_new_string("last references");
+		json_object_set_userdata(n, NULL, on_destroy_round);
+		for (int i = 1; i < T; i++)
+			json_object_get(n); /* T references in all: the creator's is handed to thread 1 */
+		long d0 = destroyed_total;
+		__atomic_store_n(&round_node, n, __ATOMIC_RELEASE);
+		__atomic_store_n(&round_done, 0, __ATOMIC_RELEASE);
+		__atomic_store_n(&round_go, r, __ATOMIC_RELEASE);
+		while (__atomic_load_n(&round_done, __ATOMIC_ACQUIRE) < T)
+			;
+		if (destroyed_total - d0 != 1)
+			bad_rounds++;
+	}
+	for (int i = 0; i < T; i++)
+		pthread_join(th[i], NULL);
+	ev_begin("lastrefs");
+	ev_int("threads", T);
+	ev_int("rounds", R);
+	ev_int("destroyed", destroyed_total);
+	ev_int("freed_reports", freed_reports);
+	ev_int("bad_rounds", bad_rounds);
+	ev_end();
+	return 0;
+}
+
 static void *seed_thread(void *a)
 {
 	targ *t = a;
@@ -224,6 +289,12 @@ int main(int argc, char **argv)
 		M = atoi(argv[3]);
 		K = atoi(argv[4]);
 		return run_counter();
+	}
+	if (argc >= 4 && !strcmp(argv[1], "lastrefs"))
+	{
+		T = atoi(argv[2]);
+		R = atoi(argv[3]);
+		return run_lastrefs();
 	}
 	if (argc >= 3 && !strcmp(argv[1], "seed"))
 	{
